@@ -141,6 +141,11 @@ def make_symbolic(eng, name, spec, st, assumptions):
             cell = {"n": n, "items": z3.Array(name + ".items", z3.IntSort(), zsort(spec.elem))}
         st = St(st.env, {**st.heap, name: cell}, st.pc + [n >= 0], st.ghost)
         return Ref(name, "list"), st
+    if isinstance(spec, dict):
+        out = {}
+        for key, sp in spec.items():
+            out[key], st = make_symbolic(eng, f"{name}_{key}", sp, st, assumptions)
+        return out, st
     if type(spec).__name__ == "DictT":
         from . import dicts
         return dicts.symbolic(eng, name, spec, st)
@@ -215,8 +220,14 @@ def generate(contract, registry=REG, finite=None, grid=None):
         run.line, run.ast_hash = fn.lineno, ast_hash(fn)
         st = St({}, {}, [], dict(contract.ghost))
         params = [a.arg for a in fn.args.posonlyargs + fn.args.args + fn.args.kwonlyargs]
-        if fn.args.vararg or fn.args.kwarg:
-            raise Unsupported("*args/**kwargs in a verified function")
+        if fn.args.vararg:
+            raise Unsupported("*args in a verified function")
+        if fn.args.kwarg:
+            # **kwargs: verified per arity - the contract fixes the keyword names ({name: spec}); stated as an assumption
+            if not isinstance(contract.params.get(fn.args.kwarg.arg), dict):
+                raise Unsupported("**kwargs in a verified function (give a {name: spec} dict for a fixed set of keywords)")
+            params.append(fn.args.kwarg.arg)
+            run.assumptions.add(f"{contract.key}: verified for the keyword set {sorted(contract.params[fn.args.kwarg.arg])} of **{fn.args.kwarg.arg}")
         for p in params:
             if p not in contract.params:
                 raise BindingError(f"parameter {p} of {contract.key} has no spec in the contract")
